@@ -21,33 +21,38 @@ deriving DecidableEq, Repr
 structure TK where
   st : TS
   /-- characters of the token in progress, newest first -/
-  cur : Text
+  cur : CText
   /-- completed control tokens, newest first -/
-  out : List Text
+  out : List CText
 deriving DecidableEq, Repr
 
-def isParam (c : Char) : Bool := 0x30 ≤ c.toNat && c.toNat ≤ 0x3f
-def isInter (c : Char) : Bool := 0x20 ≤ c.toNat && c.toNat ≤ 0x2f
-def isFinal (c : Char) : Bool := 0x40 ≤ c.toNat && c.toNat ≤ 0x7e
-def isStrIntro (c : Char) : Bool := c = ']' || c = 'P' || c = 'X' || c = '^' || c = '_'
-def CSI8 : Char := Char.ofNat 0x9b
-def ST8 : Char := Char.ofNat 0x9c
-def BEL : Char := Char.ofNat 7
+def isParam (c : CP) : Bool := 0x30 ≤ c && c ≤ 0x3f
+def isInter (c : CP) : Bool := 0x20 ≤ c && c ≤ 0x2f
+def isFinal (c : CP) : Bool := 0x40 ≤ c && c ≤ 0x7e
+/-- `[` -/
+def LBRACK : CP := 0x5b
+/-- `\` -/
+def BSLASH : CP := 0x5c
+/-- OSC `]`, DCS `P`, SOS `X`, PM `^`, APC `_` -/
+def isStrIntro (c : CP) : Bool := c = 0x5d || c = 0x50 || c = 0x58 || c = 0x5e || c = 0x5f
+def CSI8 : CP := 0x9b
+def ST8 : CP := 0x9c
+def BEL : CP := 7
 
 /-- a character seen in the ground state -/
-def groundStep (out : List Text) (c : Char) : TK :=
+def groundStep (out : List CText) (c : CP) : TK :=
   if c = ESC then ⟨.esc, [c], out⟩
   else if c = CSI8 then ⟨.csiParam, [c], out⟩
   else if isControl c then ⟨.ground, [], [c] :: out⟩
   else ⟨.ground, [], out⟩
 
-def finishTok (cur : Text) (out : List Text) : List Text := cur.reverse :: out
+def finishTok (cur : CText) (out : List CText) : List CText := cur.reverse :: out
 
-def tkStep (k : TK) (c : Char) : TK :=
+def tkStep (k : TK) (c : CP) : TK :=
   match k.st with
   | .ground => groundStep k.out c
   | .esc =>
-    if c = '[' then ⟨.csiParam, c :: k.cur, k.out⟩
+    if c = LBRACK then ⟨.csiParam, c :: k.cur, k.out⟩
     else if isStrIntro c then ⟨.str, c :: k.cur, k.out⟩
     else if isInter c then ⟨.escInter, c :: k.cur, k.out⟩
     else ⟨.ground, [], finishTok (c :: k.cur) k.out⟩
@@ -68,22 +73,22 @@ def tkStep (k : TK) (c : Char) : TK :=
     else if c = ESC then ⟨.strEsc, c :: k.cur, k.out⟩
     else ⟨.str, c :: k.cur, k.out⟩
   | .strEsc =>
-    if c = '\\' then ⟨.ground, [], finishTok (c :: k.cur) k.out⟩
+    if c = BSLASH then ⟨.ground, [], finishTok (c :: k.cur) k.out⟩
     else if c = BEL || c = ST8 then ⟨.ground, [], finishTok (c :: k.cur) k.out⟩
     else if c = ESC then ⟨.strEsc, c :: k.cur, k.out⟩
     else ⟨.str, c :: k.cur, k.out⟩
 
-def tkRun (k : TK) (t : Text) : TK := t.foldl tkStep k
+def tkRun (k : TK) (t : CText) : TK := t.foldl tkStep k
 
 def tk0 : TK := ⟨.ground, [], []⟩
 
 /-- the control tokens of a stream, in order (an unterminated sequence at the end counts) -/
-def ctrlTokens (t : Text) : List Text :=
+def ctrlTokens (t : CText) : List CText :=
   let k := tkRun tk0 t
   (if k.st = .ground then k.out else finishTok k.cur k.out).reverse
 
 /-- `t` consists of whole control tokens and printable text: the tokenizer is back in the ground
     state after it, so nothing that follows can be absorbed into (or complete) a sequence of `t` -/
-def complete (t : Text) : Bool := (tkRun tk0 t).st == .ground
+def complete (t : CText) : Bool := (tkRun tk0 t).st == .ground
 
 end Ptk.C10
